@@ -105,6 +105,17 @@ func c08One(rep *core.Report, parent lint.Registry, pdesc []lintDesc, o lint.Fil
 	if r.GetConfiguration() != parent.GetConfiguration() {
 		v("configuration_not_inherited", "filtered registry does not carry the source registry's configuration")
 	}
+	// two-step sequence: the filtered registry is a registry of its own — configuring IT is not a change of
+	// the source registry ("the source registry is left unchanged" holds after the call returned, too)
+	if marker, merr := lint.NewConfigFromString("[verif_marker]\nx = 1\n"); merr == nil {
+		saved := parent.GetConfiguration()
+		r.SetConfiguration(marker)
+		if parent.GetConfiguration() != saved {
+			v("parent_changed_through_result", "configuring the registry returned by Filter (non-empty options) changed the source registry's configuration: the result aliases its source")
+			parent.SetConfiguration(saved)
+		}
+		r.SetConfiguration(saved)
+	}
 	rep.SetAddHash("distinct_selections", core.HashStr(strings.Join(namesOf(want), ",")))
 	return r, want
 }
